@@ -53,7 +53,7 @@ func encodeCase(cs *Case) any {
 					var xs []json.RawMessage
 					_ = json.Unmarshal(arr, &xs)
 					if len(xs) == 1 {
-						re.Obj = xs[0]
+						re.Obj = withEmptySlices(e.Obj, xs[0])
 					}
 				}
 			}
@@ -190,6 +190,8 @@ func Run(args []string) int {
 	dump := fs.Bool("dump", false, "print the replay JSON of every case run")
 	fs.BoolVar(&Explain, "explain", false, "print graph conditions of every step to stderr")
 	replay := fs.String("replay", "", "run the cases stored in these files (comma separated) instead of generating")
+	focus := fs.String("focus", "", "file.go:func,… — raise the probability of objects / fields that reach these functions")
+	units := fs.Bool("unit", false, "run the unit streams (real functions of the mirrored nil-guard sites on generated shapes) instead of cases")
 	perms := fs.Bool("perms", false, "run the exhaustive small scope (all delivery orders of the selector scenario) instead of generating")
 	if err := fs.Parse(args); err != nil {
 		return 2
@@ -218,11 +220,16 @@ func Run(args []string) int {
 	}
 	w := bufio.NewWriterSize(os.Stdout, 1<<20)
 	defer w.Flush()
+	if *units {
+		RunUnits(w, *seed, *n)
+		return 0
+	}
 	g, err := NewGen()
 	if err != nil {
 		fmt.Fprintln(os.Stderr, "c05:", err)
 		return 3
 	}
+	g.Focus = ParseFocus(*focus)
 	timeout := time.Duration(*timeoutMs) * time.Millisecond
 	root := rng.New(*seed)
 	tags := map[string]int{}
